@@ -15,7 +15,7 @@ from fastavro._read_common import SchemaResolutionError
 WRITERS = ["prim_int", "prim_long", "prim_float", "prim_string", "prim_bytes", "enum", "fixed", "rec_flat", "rec_floats",
            "rec_defaults2", "union_prims", "union_named_mix", "union_two_recs", "pair_array_record", "pair_map_union",
            "pair_field_enum", "pair_field_fixed", "pair_field_union", "pair_array_long", "chain_rec_union_rec_arr",
-           "ref_after_def", "ns_inherit", "rec_list", "pair_union_record", "pair_map_int"]
+           "ref_after_def", "ns_inherit", "rec_list", "pair_union_record", "pair_map_int", "enum_default", "rec_enum_default"]
 # leaves come from pools (incl. range extremes): resolution never looks at leaf values except to
 # convert them (float(int), bytes<->str), and error paths format them (which makes CrossHair
 # enumerate values); every value of every primitive is covered by C01-C03 layer 1
